@@ -69,7 +69,79 @@ let first_steps c =
   | 'W' -> [Some (reports_at c.delays 0 @ [OSetup c.alt])]
   | _ -> []
 let first_op = function Some (o :: _) -> Some o | _ -> None
+(* ---- layer B: construction orders and output buffers (TermBufDefs / TermBufSpec) *)
+let parse_bop s =
+  match split_on ':' s with
+  | ["b"; n] -> BBuffer (zi n)
+  | ["o"] -> BAttach
+  | ["F"] -> BFlush
+  | _ -> BOp (parse_mop s)
+(* the calls one harness op stands for: the first attach is followed by the terminal's replies *)
+let b_steps decscusr rpm12 (ops : bop list) : bop list list =
+  let replies =
+    [BOp (OReport (z_of_int 69, z_of_int 1)); BOp (OReport (z_of_int 25, z_of_int 1))]
+    @ (if rpm12 <> 0 then [BOp (OReport (z_of_int 12, z_of_int rpm12))] else [])
+    @ (if decscusr >= 0 then [BOp (ODecscusr (z_of_int decscusr))] else []) in
+  let rec go attached = function
+    | [] -> []
+    | BAttach :: r -> (if attached then [BAttach] else BAttach :: replies) :: go true r
+    | BOp ODestroy :: _ -> [[BOp ODestroy]]
+    | o :: r -> [o] :: go attached r in
+  go false ops
+let b_drv colon rgb =
+  let d = xt_on_sgrreport xdrv_new colon false in
+  let ((d, _), _) = xt_setctl d CtlCapRgb8 (z_of_int (if rgb then 1 else 0)) in d
+let parse_b toks =
+  match toks with
+  | "B" :: ds :: r12 :: colon :: rgb :: _fd :: ops ->
+    (int_of_string ds, int_of_string r12, colon <> "0", rgb <> "0", List.map parse_bop ops)
+  | _ -> failwith "case B"
+let model_b line =
+  let (ds, r12, colon, rgb, ops) = parse_b (split_ws line) in
+  let b = Buffer.create 256 in
+  Buffer.add_string b "I:-";
+  let b0 = bterm_new (b_drv colon rgb) (z_of_int 25) (z_of_int 80) in
+  let _ = List.fold_left (fun st step ->
+      match st with
+      | None -> None
+      | Some bt ->
+        let (bt', bytes, value, ok) = List.fold_left (fun (bt, acc, value, ok) o ->
+            if not ok then (bt, acc, value, ok) else
+              match bstep bt o with
+              | None -> (bt, acc, value, false)
+              | Some ((bt', d), v) -> (bt', acc @ d, (match v with Some _ -> v | None -> value), true)) (bt, [], None, true) step in
+        if not ok then (Buffer.add_string b " FAULT"; None) else begin
+          (match List.hd step with
+           | BOp (OSet _) -> Buffer.add_string b (Printf.sprintf " %d:%s" (match value with Some v -> int_of_z v | None -> 0) (hex_of_bytes bytes))
+           | BOp (OGet _) -> Buffer.add_string b (match value with Some v -> Printf.sprintf " =%d" (int_of_z v) | None -> " =fail")
+           | _ -> Buffer.add_string b (" " ^ hex_of_bytes bytes));
+          Some bt'
+        end) (Some b0) (b_steps ds r12 ops) in
+  Buffer.contents b
+let oracle_b kp cs o =
+  let (ds, r12, colon, rgb, ops) = parse_b (split_ws cs) in
+  match split_ws o with
+  | init :: obs when init = "I:-" ->
+    let v0 = vt_init (z_of_int 25) (z_of_int 80) in
+    let v0 = set_md v0 (md_set_blink v0.v_md (r12 = 1)) in
+    let v0 = if ds >= 0 then set_md v0 (md_set_shape v0.v_md (z_of_int ds)) else v0 in
+    let steps = b_steps ds r12 ops in
+    if List.length obs <> List.length steps then "BAD obs count" else begin
+      let items = List.concat (List.map2 (fun step ob ->
+          match step with
+          | BOp (OSet _) :: _ -> (match split_on ':' ob with [r; h] -> [((List.hd step, bytes_of_hex h), Some (zi r))] | _ -> failwith "obs set")
+          | BOp (OGet _) :: _ -> if String.length ob > 1 && ob.[0] = '=' then
+              [((List.hd step, []), (try Some (zi (String.sub ob 1 (String.length ob - 1))) with _ -> None))] else failwith "obs get"
+          | first :: rest -> ((first, bytes_of_hex ob), None) :: List.map (fun o -> ((o, []), None)) rest
+          | [] -> failwith "step") steps obs) in
+      match oracle_buf kp colon rgb (ms_of_vt v0) O (bo_init v0) [] items with
+      | MOk n -> Printf.sprintf "OK %d" (int_of_nat n)
+      | MOutOfRange i -> Printf.sprintf "OK range@%d" (int_of_nat i)
+      | MBadAt (i, w) -> Printf.sprintf "BAD @%d why=%d" (int_of_nat i) (int_of_nat w)
+    end
+  | _ -> "BAD obs"
 let model line =
+  if String.length line > 0 && line.[0] = 'B' then model_b line else
   let c = parse_case (split_ws line) in
   let b = Buffer.create 256 in
   Buffer.add_string b ("I:" ^ hex_of_bytes (render xt_start));
@@ -97,6 +169,7 @@ let model line =
   Buffer.contents b
 let oracle kp line =
   match String.split_on_char '|' line with
+  | [cs; o] when String.length (String.trim cs) > 0 && (String.trim cs).[0] = 'B' -> oracle_b kp cs o
   | [cs; o] ->
     let c = parse_case (split_ws cs) in
     (match split_ws o with
